@@ -19,7 +19,7 @@
     [catch_unwind]): arena indexing and the [unwrap]s on child links inside [_remove_node] /
     [_retain] — the model is a tree, not an arena; see DESIGN.md section 7. *)
 From Coq Require Import List NArith ZArith Bool Lia Permutation.
-From PT Require Import Lookup Lookup2 Mutate Slots Retain MutTrav UnionThm InterDiffThm HistoryExtra.
+From PT Require Import Lookup Lookup2 Mutate Slots Retain MutTrav UnionThm InterDiffThm HistoryExtra EntryApi InstEntry.
 From PT.Properties Require Import Common.
 Import ListNotations.
 
@@ -174,6 +174,50 @@ Proof.
       try discriminate. cbn. unfold get. rewrite N. exact G.
 Qed.
 
+(** * the Entry API as a whole: ANY sequence of method calls on one entry handle
+      ([EntryApi.entry_chain] is the state machine the extracted driver runs for [entry] lines).
+      Outside the recorded known class (an accessor other than [key()] after
+      [OccupiedEntry::remove] on the same handle) no call panics unless a user closure does; a
+      closure panic ([or_insert_with], [and_modify], [VacantEntry::insert_with]) leaves the map
+      exactly as the calls before it left it; whatever happens — known class and panicking
+      closures included — the map stays well-formed with consistent slot accounting, and outside
+      the known class the counter stays exact. *)
+Theorem C20_entry_chain_no_panic (m : pmap pfx V) (q : pfx) (acts : list (eact V)) :
+  wfm w V (root m) -> okp w q -> occupied_reuse V acts = false -> closure_panics V acts = false ->
+  ~ In (TPanic (pfx:=pfx) (V:=V)) (snd (t_entry_chain w fl V m q acts)).
+Proof. exact (entry_chain_no_panic pfx V _ _ _ _ _ _ _ _ _ (laws w fl Hw) m q acts). Qed.
+
+Theorem C20_entry_chain_closure_panic (m : pmap pfx V) (q : pfx) (acts : list (eact V)) :
+  wfm w V (root m) -> okp w q -> occupied_reuse V acts = false ->
+  In (TPanic (pfx:=pfx) (V:=V)) (snd (t_entry_chain w fl V m q acts)) ->
+  exists acts1 a acts2,
+    acts = acts1 ++ a :: acts2 /\
+    (a = EOrInsertWith None \/ a = EAndModify None \/ a = VacInsertWith None) /\
+    fst (t_entry_chain w fl V m q acts) = fst (t_entry_chain w fl V m q acts1).
+Proof.
+  intros Hwf Hq Hr Hin.
+  destruct (entry_chain_closure_panic pfx V _ _ _ _ _ _ _ _ _ (laws w fl Hw) m q acts Hwf Hq Hr Hin)
+    as [a1 [a [a2 [E [C F]]]]].
+  exists a1, a, a2. split; [exact E|]. split; [apply closure_panic_act_spec; exact C | exact F].
+Qed.
+
+Theorem C20_entry_chain_keeps_invariants (m : pmap pfx V) (q : pfx) (acts : list (eact V)) :
+  wfm w V (root m) -> okp w q ->
+  let m' := fst (t_entry_chain w fl V m q acts) in
+  wfm w V (root m') /\
+  (minv pfx V m -> minv pfx V m') /\
+  (cinv pfx V m -> occupied_reuse V acts = false -> cinv pfx V m' /\ (0 <= len m')%Z) /\
+  (forall e, ekey w V e <> kbits w q -> (In e (entries (root m')) <-> In e (entries (root m)))).
+Proof.
+  intros Hwf Hq m'. pose proof (laws w fl Hw) as LW. split; [|split; [|split]].
+  - exact (entry_chain_wf pfx V _ _ _ _ _ _ _ _ _ LW m q acts Hwf Hq).
+  - exact (entry_chain_minv pfx V (peq w) (contains w fl) (is_bit_set w) plen (lcp w fl) pzero m q acts).
+  - intros Hc Hr.
+    pose proof (entry_chain_cinv pfx V _ _ _ _ _ _ _ _ _ LW m q acts Hc Hwf Hq Hr) as Hc'.
+    split; [exact Hc'|]. pose proof (cinv_len pfx V _ Hc') as E. unfold m', t_entry_chain. rewrite E. lia.
+  - exact (entry_chain_frame pfx V _ _ _ _ _ _ _ _ _ LW m q acts Hwf Hq).
+Qed.
+
 End C20.
 
 (** KNOWN FINDING (class occupied-reuse, recorded in KNOWN_FINDINGS.txt): [OccupiedEntry::remove]
@@ -214,4 +258,7 @@ Print Assumptions C20_retain_any_closure.
 Print Assumptions C20_retain_callback_panic.
 Print Assumptions C20_occupied_entry_total.
 Print Assumptions C20_occupied_reuse_refuted.
+Print Assumptions C20_entry_chain_no_panic.
+Print Assumptions C20_entry_chain_closure_panic.
+Print Assumptions C20_entry_chain_keeps_invariants.
 Print Assumptions entries_id_length.
